@@ -157,6 +157,7 @@ theorem seqOf_invE (P : Prims) {v : Val} (h : v.InvE) {items : List TStr} (hq : 
   · subst hq; exact h
   · subst hq; intro x hx; simp only [List.mem_singleton] at hx; subst hx; exact invE_unsafe _
   · subst hq; intro x hx; cases hx
+  · subst hq; intro x hx; simp only [List.mem_singleton] at hx; subst hx; exact invE_unsafe _
 
 theorem joinSep_invE (P : Prims) (auto : Bool) {args : List Val} (ha : ∀ a ∈ args, a.InvE) : (joinSep P auto args).InvE := by
   have h0 : (match args with | [a] => argS P a | _ => (⟨[' '], false⟩ : TStr)).InvE := by
@@ -198,6 +199,7 @@ theorem outVal_good {v : Val} (h : v.InvE) : Good (outVal true v) := by
   | undef => exact good_nil
   | bool b => cases b <;> exact ⟨by decide, by decide⟩
   | obj hh t => exact h
+  | other t => exact good_escape t
 
 theorem okS_invE {s : TStr} {r : Val} (h : okS s = .ok r) (hs : s.InvE) : r.InvE := by
   simp only [okS, Except.ok.injEq] at h; subst h; exact hs
@@ -249,6 +251,7 @@ theorem applyFilter_invE (P : Prims) {f : FName} {v : Val} {args : List Val} {r 
     split at h
     · exact okS_invE h (hv _ (by simp))
     · simp only [Except.ok.injEq] at h; subst h; trivial
+    · simp only [Except.ok.injEq] at h; subst h; trivial
   -- last
   case h_37 =>
     split at h
@@ -256,6 +259,7 @@ theorem applyFilter_invE (P : Prims) {f : FName} {v : Val} {args : List Val} {r 
       · rename_i xs x hl
         exact okS_invE h (hv x (List.mem_of_getLast? hl))
       · simp only [Except.ok.injEq] at h; subst h; trivial
+    · simp only [Except.ok.injEq] at h; subst h; trivial
     · simp only [Except.ok.injEq] at h; subst h; trivial
   -- reverse
   case h_38 =>
